@@ -363,6 +363,11 @@ impl LruDiskCache {
         } = entry;
         file.flush()?;
         let real_size = file.as_file().metadata()?.len();
+        // An entry larger than the whole cache can never fit: refuse it before
+        // anything is evicted for it.
+        if !self.can_store(real_size) {
+            return Err(Error::FileTooLarge);
+        }
         // If the file is larger than the size that had been advertized, ensure
         // we have enough space for it.
         self.make_space(real_size.saturating_sub(size))?;
